@@ -19,6 +19,7 @@ import (
 type c07Case struct {
 	Source string `json:"source"`
 	Expect string `json:"expect"`
+	Then   string `json:"then_parse,omitempty"` // a text parsed afterwards (the first tree must stay intact)
 }
 
 // refUnquote decodes the body of a "..." or '...' literal by the Go escape
@@ -113,6 +114,9 @@ func isQ(c byte) bool { return c == '"' || c == '\'' }
 // c07Expect computes the expected result for a string-like literal.
 // result: "val" with value, "reject", or "unspec".
 func c07ExpectString(style int, body string) (kind string, val string) {
+	if !utf8.ValidString(body) {
+		return "unspec", "" // the property speaks of valid UTF-8 source text
+	}
 	switch style {
 	case 0, 1:
 		q := byte('"')
@@ -172,6 +176,8 @@ func c07Strings(w *run.Worker) {
 		maxLen = 6
 	}
 	var rec func(body string, n int)
+	var prevNode *rt.Node
+	var prevWant, prevSrc string
 	one := func(body string) {
 		for style := 0; style < 5; style++ {
 			if !w.Take() {
@@ -195,6 +201,15 @@ func c07Strings(w *run.Worker) {
 			}
 			n, err := c07Literal(src, style == 4)
 			mk := c07Case{Source: src, Expect: kind + ":" + strconv.Quote(val)}
+			// the tree of the previous text is the caller's: a later parse must not change the value it holds
+			if prevNode != nil && prevNode.S != prevWant {
+				w.Violate("C07:string:earlier-tree-changed-by-a-later-parse", fmt.Sprintf("the literal parsed from %q held %q; after parsing %q it holds %q", prevSrc, prevWant, src, prevNode.S),
+					c07Case{Source: prevSrc, Expect: "val:" + strconv.Quote(prevWant), Then: src})
+			}
+			prevNode = nil
+			if err == nil && kind == "val" && n != nil && n.S == val {
+				prevNode, prevWant, prevSrc = n, strings.Clone(val), src
+			}
 			styleName := []string{"double", "single", "triple-double", "triple-single", "backquote"}[style]
 			switch {
 			case kind == "reject":
@@ -232,7 +247,7 @@ func c07Strings(w *run.Worker) {
 	rec("", 0)
 	// every escape form in full (longer than the exhaustive bound)
 	extra := []string{`\a\b\f\n\r\t\v\\`, `\x41\x7f\xff\x00`, `\101\377\000`, `\400`, `é日`, `\U0001F600`, `\U00110000`, `\ud800`, `\udfff`, ``,
-		`\U0000d800`, `\x4`, `\x4g`, `\u12`, `\u123g`, `\U0001F60`, `\8`, `\18`, `\1`, `\12`, `\c`, `\ `, `\é`, `\X41`, `a\`, `\"`, `\'`, "\\`", `é日本`, "\t", "a\rb",
+		`\U0000d800`, `\x4`, `\x4g`, `\u12`, `\u123g`, `\U0001F60`, `\8`, `\18`, `\1`, `\12`, `\c`, `\ `, `\é`, `\X41`, `a\`, `\"`, `\'`, "\\`", `é日本`, "\t", "a\rb", "\uFFFD", "a\uFFFDb\n\uFFFD", "\xef\xbf", "\U0010FFFF\u2028",
 		`\x41B\103D`, `\xAB\xaB\xFf`, `\uABCD\uabcd\uAbCd`, `\U0010FFFF`, `\U0010ffff`, `\uD7FF\uE000`, `\uDFFF`, `\U000E0000`, `\xG0`, `\x0G`, `\u00G0`, `%d \% %s`, `\u{41}`, `\N{dash}`, `\x-1`, `\u+041`, `\u 041`}
 	for _, body := range extra {
 		one(body)
@@ -499,6 +514,15 @@ func c07Replay(raw json.RawMessage) (bool, string) {
 	if err := json.Unmarshal(raw, &c); err != nil {
 		return false, err.Error()
 	}
+	if c.Then != "" {
+		first, err := c07Literal(c.Source, strings.HasPrefix(c.Source, "`"))
+		if err != nil || first == nil {
+			return false, fmt.Sprintf("first text does not parse: %v", err)
+		}
+		before := strings.Clone(first.S)
+		_, _ = c07Literal(c.Then, strings.HasPrefix(c.Then, "`"))
+		return first.S != before, fmt.Sprintf("first literal held %q, after parsing %q it holds %q", before, c.Then, first.S)
+	}
 	prog, err := parseTree(c.Source)
 	got := "error: "
 	if err != nil {
@@ -513,7 +537,7 @@ func init() {
 	run.Register(&run.Check{
 		ID:    "C07",
 		Level: "model_checking",
-		Rule: "(A) every string body of length <=5 (thorough <=6) over the 17 symbols {a \" ' ` \\ n x u U 0 1 7 8 newline é NUL CR} between each of 5 quote styles, plus 37 longer escape forms; " +
+		Rule: "(A) every string body of length <=5 (thorough <=6) over the 17 symbols {a \" ' ` \\ n x u U 0 1 7 8 newline é NUL CR} between each of 5 quote styles, plus 51 longer escape forms (incl. a literal U+FFFD and truncated UTF-8); after every accepted literal the NEXT parse must leave the value held by the earlier tree unchanged; " +
 			"(B) all integers 2^k, 2^k+-1 (k<=64), 10^k, 10^k+-1, 0..1999 spelled decimal and 0x/0X x 8 sign prefixes; (C) every float spelling d[.d[d]][e[+-]d] over the whole exponent range, shortest and 17-digit spellings of +-2^k and neighbours, inf/nan in all letter cases, 20 malformed numbers; " +
 			"(D) true/false/nil/null in all letter-case variants; oracle: reference decoder written from the Go escape rules (single quotes like double quotes), strconv.ParseFloat as trusted arithmetic",
 		Assumptions: []string{"unspecified cells skipped and counted: other triple quote inside a raw string, hex literals >= 2^63, float overflow (rejected or +-Inf both accepted), back quote inside a back-quoted identifier"},
